@@ -70,7 +70,10 @@ class LabelFinalizer:
         ls: list[SsbLabel] = []
         cursor = op_i + 1
         try:
-            while isinstance(r[cursor], SsbLabel) or isinstance(r[cursor], SsbLabelJump):
+            while isinstance(r[cursor], SsbLabel) or (
+                # Only regular jumps are removed when they jump to a label right after, so only they can be looked through.
+                isinstance(r[cursor], SsbLabelJump) and r[cursor].root.op_code.name == OP_JUMP  # type: ignore
+            ):
                 if isinstance(r[cursor], SsbLabelJump):
                     # If this is a label jump, we ignore it, if it ALSO just jumps to a label right after,
                     # we only do this once because of performance concerns.
